@@ -2158,16 +2158,18 @@ void SVDlapack(matrix *m_, matrix *u, matrix *s, matrix *vt)
     return;
   }
 
+  /* economy size factors: with k = min(m, n), u is m x k, s is k x k, vt is k x n */
+  k = (m < n) ? m : n;
   /* s are the eigenvectors singular values diagonal matrix*/
-  ResizeMatrix(s, n, n);
-  for(i = 0; i < m_->col; i++){
+  ResizeMatrix(s, k, k);
+  for(i = 0; i < k; i++){
     s->data[i][i] = s_[i];
   }
   //conv2matrix(1, n, s_, 1, s);
   /* u is left singular vectors */
-  conv2matrix(m, n, u_, ldu, u);
+  conv2matrix(m, k, u_, ldu, u);
   /*vt is the right singular vectors */
-  conv2matrix(m, n, vt_, ldvt, vt);
+  conv2matrix(k, n, vt_, ldvt, vt);
   /* Free workspace */
   xfree(work);
   xfree(a);
